@@ -40,6 +40,9 @@ Definition f_is_integral (x : float) : bool := f_eqb (f_of_int (f_to_int x)) x.
 Definition pad_left_zeros (n : nat) (s : list N) : list N :=
   List.repeat 48%N (n - length s) ++ s.
 
+(* the integral part of a float64 has up to 309 digits: [itoa]'s 25 are not enough here *)
+Definition itoa_wide (z : Z) : list N := dec_digits 400 z [].
+
 Definition format_fixed (decimals : nat) (x : float) : list N :=
   match x with
   | S754_nan => [78; 97; 78]%N
@@ -61,7 +64,7 @@ Definition format_fixed (decimals : nat) (x : float) : list N :=
           else if Z.even q0 then q0 else q0 + 1 in
       let ip := q / scale in
       let fp := q mod scale in
-      (if s then [45%N] else []) ++ itoa ip ++
+      (if s then [45%N] else []) ++ itoa_wide ip ++
       (match decimals with
        | O => []
        | _ => 46%N :: pad_left_zeros decimals (itoa fp)
